@@ -16,6 +16,8 @@ package main
 // simply not a failing candidate.
 
 import (
+	"regexp"
+	"strings"
 	"time"
 )
 
@@ -24,7 +26,32 @@ type reducer struct {
 	gc, sc   outcome
 	deadline time.Time
 	batches  int
+	fast     bool   // the failure shows without gc (host panic, build error, timeout): candidates are judged by Scriggo alone
+	fastKey  string // what a candidate must reproduce in the fast mode
 }
+
+// selfEvident: the class of failures that need no judge, and the text a candidate has to reproduce.
+func selfEvident(sc outcome) (string, bool) {
+	for _, pre := range []string{"host-panic:", "build-error:", "crash:", "timeout"} {
+		if strings.HasPrefix(sc.End, pre) {
+			msg := sc.End
+			if i := strings.Index(msg, ".go:"); pre == "build-error:" && i >= 0 {
+				// drop the position
+				if j := strings.Index(msg[i:], " "); j >= 0 {
+					msg = pre + msg[i+j:]
+				}
+			}
+			msg = identRE.ReplaceAllString(msg, "X")
+			if len(msg) > 60 {
+				msg = msg[:60]
+			}
+			return msg, true
+		}
+	}
+	return "", false
+}
+
+var identRE = regexp.MustCompile(`[A-Za-z]+[0-9]+|[0-9]+`)
 
 const reduceWindow = 16
 
@@ -38,11 +65,45 @@ func snapshot(p *Prog) *Prog {
 
 func reduce(p *Prog, gc0, sc0 outcome, budget time.Duration) (*Prog, outcome, outcome) {
 	r := &reducer{p: p, gc: gc0, sc: sc0, deadline: time.Now().Add(budget)}
+	r.fastKey, r.fast = selfEvident(sc0)
 	r.smallerSeeds()
 	r.removeNodes()
 	r.literals()
 	r.removeNodes()
+	if r.fast {
+		// the judge has the last word: the reduced program must be a valid program that ends differently
+		gc, sc, err := evaluate([]*Prog{snapshot(r.p)})
+		if err == nil && differs(gc[0], sc[0]) {
+			return r.p, gc[0], sc[0]
+		}
+		// an ill-typed candidate slipped through: start again with gc judging every step
+		p.walk(func(n *Node) {})
+		r2 := &reducer{p: resetProg(p), gc: gc0, sc: sc0, deadline: r.deadline}
+		r2.smallerSeeds()
+		r2.removeNodes()
+		return r2.p, r2.gc, r2.sc
+	}
 	return r.p, r.gc, r.sc
+}
+
+// resetProg undoes every removal and replacement.
+func resetProg(p *Prog) *Prog {
+	var rec func(n *Node)
+	rec = func(n *Node) {
+		n.Removed = false
+		for _, e := range n.Pre.all(nil) {
+			e.UseLit = false
+		}
+		for _, k := range n.Kids {
+			rec(k)
+		}
+	}
+	for _, k := range p.Pkgs {
+		for _, n := range k.Nodes {
+			rec(n)
+		}
+	}
+	return p
 }
 
 func (r *reducer) timeLeft() bool { return time.Now().Before(r.deadline) }
@@ -53,6 +114,19 @@ func (r *reducer) try(cands []*Prog) (int, outcome, outcome) {
 		return -1, outcome{}, outcome{}
 	}
 	r.batches++
+	if r.fast {
+		files := make([]map[string]string, len(cands))
+		for i, p := range cands {
+			files[i] = p.Files()
+		}
+		sc := runAllScriggo(files, 3)
+		for i := range cands {
+			if k, ok := selfEvident(sc[i]); ok && k == r.fastKey {
+				return i, r.gc, sc[i]
+			}
+		}
+		return -1, outcome{}, outcome{}
+	}
 	gc, sc, err := evaluate(cands)
 	if err != nil {
 		return -1, outcome{}, outcome{}
